@@ -246,6 +246,14 @@ def r3_books(ctx):
                         if not (has_c and has_u):
                             good = False
                             why = "the Some edge does not decrement %s" % ("either counter" if not (has_c or has_u) else (c["count"] if not has_c else c["usage"]))
+                        else:
+                            # ... on EVERY path: something was taken out of the map on this edge; a guard behind it (`Some(e) if !e.is_expired()`)
+                            # that skips the decrements leaves the counters counting an entry that is gone
+                            rets_ = set(b.return_blocks()) | set(ok_some_blocks(b)) | set(assigns_variant(b, "Ok"))
+                            for subs_, nm_ in ((subs_c, c["count"]), (subs_u, c["usage"])):
+                                if b.reachable([some], avoid=nexts | subs_) & rets_:
+                                    good = False
+                                    why = "a path from the Some edge reaches the return without decrementing %s (a guard behind the removal)" % nm_
                         if spurious:
                             good = False
                             why = "the None edge decrements a counter"
